@@ -31,7 +31,7 @@ CHECKS = {
     technique="Coq proof (serialiser model composed with the parser model: parse (write request) = request, by automaton scanning lemmas) + differential correspondence on captured client requests and endpoint responses",
     design="§2 C02"),
  "C06": dict(
-    text="Partial. Theorems C06_stream_and_settle_once (for every queue of writes and every pattern of short writes and would-blocks over the successive send calls: received ++ pending = concatenation of the buffers in issue order; a promise settled at most once and never while queued) and C06_fulfilled_with_full_size, by induction over the drain loop against an arbitrary socket oracle. Tied to /repo by scripting the outcome of every send call of a live Transport through the PISTACHE_VERIF hook (all scripts up to 3-4 outcomes, loop thread and foreign thread) and comparing bytes, promise values and call counts. Residue: kernel buffering/real EAGAIN timing is the oracle; liveness is observed, not proved; sendfile buffers not exercised.",
+    text="Partial. Theorems C06_stream_and_settle_once (for every queue of writes and every pattern of short writes and would-blocks over the successive send calls: received ++ pending = concatenation of the buffers in issue order; a promise settled at most once and never while queued) C06_fulfilled_with_full_size, C06_writable_never_ignored (a writable report always leads to a drain attempt, also when reported together with readable; the pinned dispatch is refuted) and C06_all_fulfilled_when_accepted (from every reachable state a drain against an accepting socket delivers everything and fulfils every queued promise in order with its full size), by induction over the drain loop against an arbitrary socket oracle. Tied to /repo by scripting the outcome of every send call of a live Transport through the PISTACHE_VERIF hook (all scripts up to 3-4 outcomes, loop thread and foreign thread) and comparing bytes, promise values and call counts. Residue: kernel buffering/real EAGAIN timing is the oracle; liveness is observed, not proved; sendfile buffers not exercised.",
     note="Closed under the global context. The cross-thread queue is taken as FIFO (C13). Trusted: harness/h_transport.cc, hook in transport.cc.",
     technique="Coq proof (invariant over the write-drain loop with a socket oracle) + fault-scripted differential correspondence on a live transport",
     design="§2 C06"),
